@@ -322,3 +322,29 @@ extern "C" void harness_resethorz() {
   else { VA(l == h.curr_x && r == h.curr_x); VA(!ltr); }   // no maxima pair in an empty AEL
   verif_reach();
 }
+
+// C05.d: AddPaths_ on an OPEN path keeps every vertex that differs from its predecessor (a last vertex equal to the first one
+// is NOT a closing duplicate), flags the first OpenStart and the last OpenEnd
+#ifndef ON
+#define ON 4
+#endif
+extern "C" void harness_addpaths_open() {
+  Point64 p[ON]; const int64_t R = 3;           // small range so that coincidences (incl. last == first) are frequent
+  for (int i = 0; i < ON; ++i) p[i] = Point64(nd_range(0, R), nd_range(0, R));
+  Paths64 a(1); for (int i = 0; i < ON; ++i) a[0].push_back(p[i]);
+  std::vector<Vertex*> va; LocalMinimaList la; la.reserve(ON + 2); va.reserve(2);
+  AddPaths_(a, PathType::Subject, true, va, la);
+  // expected vertex sequence: consecutive duplicates removed, nothing else
+  Point64 e[ON]; int m = 0;
+  for (int i = 0; i < ON; ++i) if (m == 0 || e[m - 1] != p[i]) e[m++] = p[i];
+  VA(va.size() == 1); ASSUME(va.size() == 1);
+  if (m >= 2) {
+    Vertex* v = va[0];
+    for (int k = 0; k < ON; ++k) { if (k >= m) break; VA(v->pt == e[k]); if (k + 1 < m) v = v->next; }
+    VA(v->next == va[0]);                                              // the ring closes after exactly m vertices
+    VA((va[0]->flags & VertexFlags::OpenStart) != VertexFlags::Empty);
+    VA((v->flags & VertexFlags::OpenEnd) != VertexFlags::Empty);
+    for (size_t k = 0; k < ON + 2; ++k) { if (k >= la.size()) break; VA(la[k]->is_open); }
+  } else VA(la.empty());
+  verif_reach();
+}
